@@ -107,7 +107,7 @@ theorem continueSeek_ok (W : World Node VH V) (hOK : W.OK) (ps : PageSet Node) (
         unfold beginLeavesFetch
         rw [hrb]
         simp only
-        have h0 : ∀ l ∈ W.env.leaves.head?, bitsLt r'.pos.raw l.sep = false := fun l hl => hOK.firstSep l hl _
+        have h0 : ∀ l ∈ W.env.leaves.head?, bitsLt r'.pos.raw l.sep = false := fun l hl => hOK.firstSep l hl _ ht'.wf.rawLen
         obtain ⟨binv, _⟩ := btNew_inv W.env.primary W.env.secondary W.env.leaves r'.pos.raw stop hOK.prim hOK.sec hOK.leaves h0
         have bsh := btNew_shape W.env.primary W.env.secondary W.env.leaves r'.pos.raw stop hOK.leaves h0 hss
         have hnode : page.node r'.pos.nodeIndex = some (specNode W.H W.view (r'.key.take r'.pos.depth)) := by
